@@ -101,6 +101,14 @@ WRITTEN = [
     ("Where(Where(ds, lambda e, w=0: e.a > w), lambda x, v=3: x.a < v)", False),
     ("Select(Select(ds, lambda e, /: e), lambda v, /: v.a)", False),
     ("First(Select(ds, lambda *a: (a[0].a, 1)))[0]", False),
+    # ... whose defaulted parameter is USED in the body that a fusion rule moves
+    ("SelectMany(SelectMany(ds, lambda e, k=2: Select(e.jets, lambda j: j.pt + k)), lambda v: [v])", False),
+    ("Select(SelectMany(ds, lambda e, k=2: Select(e.jets, lambda j: j.pt + k)), lambda v: v + 1)", False),
+    ("Where(SelectMany(ds, lambda e, k=2: Select(e.jets, lambda j: j.pt + k)), lambda v: v > 1)", False),
+    ("Select(ds, lambda e, z=0: Select(SelectMany(e.jets, lambda e, k=1: e.tr), lambda t: t.q + e.a))", False),
+    ("Select(ds, lambda e, z=0: SelectMany(SelectMany(e.jets, lambda e, k=1: e.tr), lambda t: [t.q + e.a + z]))", False),
+    ("SelectMany(Select(ds, lambda e, k=2: e.a + k), lambda v, m=3: [v + m])", False),
+    ("Where(Where(ds, lambda e, k=2: e.a > k), lambda e, k=0: e.b > k)", False),
     # starred / double-starred arguments of a called lambda (an unknown number of arguments: not to be bound one to one)
     ("Select(ds, lambda e: (lambda x: x + 1)(*(e.a,)))", False), ("Select(ds, lambda e: (lambda x, y: x + y)(*(e.a, e.b)))", False),
     ("Select(ds, lambda e: (lambda x, y: x + y)(e.a, *(e.b,)))", False), ("Select(ds, lambda e: (lambda x, y=1: x + y)(*(e.a,)))", False),
